@@ -65,6 +65,8 @@ struct State {
     release_hook_fn hook = nullptr;
     acquire_hook_fn ahook = nullptr;
     void *ahook_ud = nullptr;
+    prerelease_hook_fn rhook = nullptr;
+    void *rhook_ud = nullptr;
     void *hook_ud = nullptr;
 };
 static State S;
@@ -249,7 +251,7 @@ static void do_release(void *p, bool internal = false) {
 // an allocator is application code: before it serves a request of the code under test it may do anything an application may do
 // (the hook is not called for the allocator's own internal moves)
 static void *vt_acquire(struct aws_allocator *, size_t size) { if (S.ahook) S.ahook(size, S.ahook_ud); return do_acquire(size); }
-static void vt_release(struct aws_allocator *, void *p) { if (p) do_release(p); }
+static void vt_release(struct aws_allocator *, void *p) { if (p && S.rhook) S.rhook(S.rhook_ud); if (p) do_release(p); }
 static void *vt_calloc(struct aws_allocator *, size_t n, size_t sz) {
     if (S.ahook) S.ahook(n * sz, S.ahook_ud);
     void *p = do_acquire(n * sz);
@@ -344,7 +346,7 @@ struct aws_allocator *create(const Config &cfg) {
     if (S.junk == GUARD_BYTE || S.junk == FREE_BYTE) S.junk = 0xA5;
     S.require_zero_all = false;
     S.hook = nullptr; S.hook_ud = nullptr;
-    S.ahook = nullptr; S.ahook_ud = nullptr;
+    S.ahook = nullptr; S.ahook_ud = nullptr; S.rhook = nullptr; S.rhook_ud = nullptr;
     S.vt.mem_acquire = vt_acquire;
     S.vt.mem_release = vt_release;
     S.vt.mem_realloc = cfg.has_realloc ? vt_realloc : nullptr;
@@ -411,5 +413,6 @@ void clear_expect_zero(const void *p) {
 void set_require_zero_all(bool on) { S.require_zero_all = on; }
 void set_release_hook(release_hook_fn fn, void *ud) { S.hook = fn; S.hook_ud = ud; }
 void set_acquire_hook(acquire_hook_fn fn, void *ud) { S.ahook = fn; S.ahook_ud = ud; }
+void set_prerelease_hook(prerelease_hook_fn fn, void *ud) { S.rhook = fn; S.rhook_ud = ud; }
 
 } // namespace simalloc
